@@ -841,11 +841,12 @@ pub fn bulk_two_clients(n: usize, seed: u64, cov: &mut Cov) -> Option<Found> {
 /// in-memory backend, on SQLite, and on SQLite re-opened before every request: same outcomes.
 pub fn largest_body_lockstep(cov: &mut Cov) -> Option<Found> {
     const MAX: usize = 100 * 1024 * 1024;
-    for len in [MAX, MAX - 64] {
+    // (and the smallest: an empty segment / snapshot can only arrive through the library)
+    for len in [0usize, 1, MAX, MAX - 64] {
         let mut outcomes: Vec<(String, Vec<String>)> = vec![];
         for (name, kind, reopen) in [("mem/lib", Kind::MEM_LIB, false), ("sqlite/lib", Kind::SQL_LIB, false), ("sqlite/lib re-opened before every request", Kind::SQL_LIB, true)] {
             let Ok(mut subj) = Subject::new(kind, Config::default()) else { continue };
-            let c = Uuid::from_u128(0xC13_0000 + len as u128);
+            let c = Uuid::from_u128(0xC13_0000_0000 + len as u128);
             let data = PaySpec::new(len, 0, len as u64).bytes();
             let mut o = vec![];
             let mut step = |subj: &mut Subject, req: Req| -> Resp {
@@ -866,7 +867,7 @@ pub fn largest_body_lockstep(cov: &mut Cov) -> Option<Found> {
             cov.evaluations += 4;
             outcomes.push((name.to_string(), o));
         }
-        cov.hit(format!("largest-body-lockstep:{}", if len == MAX { "limit" } else { "limit-64" }));
+        cov.hit(format!("largest-body-lockstep:{}", if len == MAX { "limit" } else if len < 2 { "empty-or-one-byte" } else { "limit-64" }));
         if let Some((n, o)) = outcomes.iter().skip(1).find(|(_, o)| *o != outcomes[0].1) {
             return Some(Found {
                 property: "C13".into(),
